@@ -15,7 +15,15 @@ class Peer(object):
         self._do = None
 
     # --- server -> client
-    def compress(self, message):
+    def compress(self, message, final=False):
+        """final=True: flush with a DEFLATE block that has BFINAL set and append 0x00 (RFC 7692 section 7.2.3.4); zlib cannot
+        go on after Z_FINISH, so the next message starts a new DEFLATE stream (with an empty window)."""
+        if final:
+            if self._co is None or self.server_nct:
+                self._co = zlib.compressobj(zlib.Z_DEFAULT_COMPRESSION, zlib.DEFLATED, -max(self.swb, 9))
+            data = self._co.compress(message) + self._co.flush(zlib.Z_FINISH)
+            self._co = None
+            return data + b"\x00"
         if self._co is None or self.server_nct:
             # zlib cannot deflate with an 8-bit window; 9 bits never produces a distance above 256-6 so it is compatible
             self._co = zlib.compressobj(zlib.Z_DEFAULT_COMPRESSION, zlib.DEFLATED, -max(self.swb, 9))
